@@ -5,7 +5,7 @@ from . import _ecell_prop as E
 
 PID = 'C02'
 PROFILE = {'pressure': 0.5, 'failure': 0.5, 'traits': 0.5, 'partitions': 0.5, 'affinity': 0.5, 'lease': 0.3,
-           'identity': 0.3, 'raw_remove': 0.05}
+           'identity': 0.3, 'raw_remove': 0.05, 'frozen': 0.5}
 
 
 def gen_case(rng, i):
@@ -60,7 +60,36 @@ def _eligible(snap, ap):
     return out
 
 
+def _aggregates(snap, where):
+    """AggSound on the implementation: no rack/pod/cell aggregate may hide an up server below it."""
+    out = []
+    for sid, s in snap['servers'].items():
+        if s['state'] != 'up':
+            continue
+        for b in s['chain']:
+            bk = snap['buckets'][b]
+            if any(f > bf for f, bf in zip(s['free'], bk['free'])):
+                out.append(('aggregate-hides-free-capacity', '%s: up server %d has free %r but bucket %d says %r'
+                            % (where, sid, s['free'], b, bk['free'])))
+            if s['label'] not in bk['labels']:
+                out.append(('aggregate-hides-partition', '%s: bucket %d lacks label %d of up server %d'
+                            % (where, b, s['label'], sid)))
+            if (bk['traits'] & s['traits']) != s['traits']:
+                out.append(('aggregate-hides-traits', '%s: bucket %d traits %d lack those of up server %d (%d)'
+                            % (where, b, bk['traits'], sid, s['traits'])))
+    return out[:3]
+
+
 def extra_oracle(case, r):
+    agg = []
+    for i, rec in enumerate(r['trace']):
+        if rec.get('op') == 'Schedule':
+            agg += _aggregates(rec['before'], 'before the cycle at op %d' % i)
+            agg += _aggregates(rec['after'], 'after the cycle at op %d' % i)
+        if agg:
+            break
+    if agg:
+        return agg[:2]
     recs = [(i, rec) for i, rec in enumerate(r['trace']) if rec.get('op') == 'Schedule']
     if len(recs) < 2:
         return []
@@ -81,21 +110,10 @@ def extra_oracle(case, r):
     fit = _eligible(bef, ap)
     if not fit:
         return []
-    # was the probe skipped by the feasibility tracker? (a pending instance ahead of it with the same shape and a
-    # demand that is component-wise <= the probe's)
+    # was the probe skipped by the feasibility tracker? (recorded by wrapping PlacementFeasibilityTracker.feasible)
     sig = 'fitting-probe-left-pending'
-    for label, q in last['queues']:
-        names = [a for a, _r, _p in q]
-        if probe not in names:
-            continue
-        for a in names[:names.index(probe)]:
-            b = aft['apps'].get(a)
-            if b is None or b['server'] is not None:
-                continue
-            same_shape = (b['aff'] == ap['aff'] and sorted(b['limits'].values()) == sorted(ap['limits'].values())
-                          and b['lease'] == ap['lease'])
-            if same_shape and all(x >= y for x, y in zip(ap['demand'], b['demand'])):
-                sig = 'fitting-probe-skipped:feasibility-tracker-shape-collision'
+    if probe in last.get('tracker_skipped', []):
+        sig = 'fitting-probe-skipped:feasibility-tracker-shape-collision'
     return [(sig, 'at op %d: probe %d (demand %r, traits %d) stays pending although up server(s) %r fit it'
              % (i_last, probe, ap['demand'], ap['traits'], fit))]
 
